@@ -87,7 +87,12 @@ def main():
     simclock = 'simclock "github.com/aergoio/aergo/v2/zz_verif/simclock"'
     rewrite("consensus/impl/dpos/slot/slot.go", [(r"time\.Now\(\)", "simclock.Now()", 2)], simclock)
     rewrite("mempool/txlist.go", [(r"time\.Now\(\)", "simclock.Now()", None)], simclock)
-    rewrite("mempool/mempool.go", [(r"eTime := time\.Now\(\)", "eTime := simclock.Now()", 1)], simclock)
+    # the pool lock (the MemPool struct's embedded mutex) becomes a scheduling point of the POOL world;
+    # without an installed scheduler simsync.RWMutex is a plain sync.RWMutex
+    simsync = 'simsync "github.com/aergoio/aergo/v2/zz_verif/simsync"'
+    rewrite("mempool/mempool.go", [(r"eTime := time\.Now\(\)", "eTime := simclock.Now()", 1),
+                                   (r"(?m)^\tsync\.RWMutex\n\tcfg \*cfg\.Config$", "\tsimsync.RWMutex\n\tcfg *cfg.Config", 1)],
+            simclock + "\n\t" + simsync)
     # a panic below the chain manager must surface as a Go panic, not end the simulator process
     rewrite("chain/recover.go", [(r"os\.Exit\(10\)", 'panic(fmt.Sprint("verif: RecoverExit: ", r))', 1),
                                  (r'\n\t"os"\n', '\n', 1)])
